@@ -70,6 +70,18 @@ CHECKS = {
         text="~85 rows: all primitive and NonZero integer widths, floats, bool, char, strings, paths, the six network address types, unit, Option (nested), Result, Vec, slices, arrays N in {0,1,2,3,32} (+64/65 by name), tuples 1..10, sets, maps with String/i32/u64/bool/char/unit-enum keys, ranges, Box/Rc/Arc/Cow/Cell/RefCell/Mutex/RwLock/Weak/PhantomData, serde_json::Value, and compositions to depth 3 with user structs/enums/generics. Per row: every value's real JSON inhabits name() and inline(); witnesses of the type are accepted by Deserialize and serialize back into it; dependencies are exactly the user types among the arguments.",
         note="Trusted: TLC, tsparse, serde as pinned. Address-like strings are checked for shape only (an arbitrary string is not a valid address). Feature-gated third-party crates are not instantiated yet.",
         design_ref="DESIGN.md section 5 (C12), 3.6"),
+    "C14": dict(
+        category="model_checking",
+        technique="sibling items (by name / inline / as / flatten of one underlying type) compiled for real; denotational equivalence of their real declarations decided by TLC (Inhabits of TsTypes.tla on type-directed witnesses, both directions, Trace_Binding.tla)",
+        text="Inline: every pair of programs of the C01 corpus (all slices) differing only by #[ts(inline)] on a field. As: #[ts(as = \"T\")] on an opaque field against the field typed T at 6 positions (named, newtype, tuple, variant payload, variant, `_` placeholder) x 14 type constructors; container-level `as` against the inlined type. Flatten: against hand-expanded structs, and inline-inside-flatten / flatten-inside-inline / flatten-of-flatten. Plus inline() = body of decl_concrete() for every type of both corpora. A presentation that panics at run time is a violation.",
+        note="Trusted: as C01. Equivalence is decided on bounded witness sets of both sides, not by a normal form.",
+        design_ref="DESIGN.md section 5 (C14)"),
+    "C07": dict(
+        category="model_checking",
+        technique="a family of generic definitions instantiated at several arguments in a generated crate; parametricity, parameter list, scoping and name() judged by TLC on the parsed real declarations (Trace_Generic.tla, FreeNames of TsTypes.tla); expansion-vs-concrete equivalence by TLC on witnesses (Trace_Binding.tla)",
+        text="21 definitions (parameter bare, in Option/Vec/map/tuple/array, in another generic, inlined, flattened, optional; two parameters; defaults incl. a default naming another parameter and a user type; lifetime; const parameter; concrete(..); enums incl. adjacently tagged; newtype/tuple structs; recursive; where-clause) x 3 argument choices: identical declaration for every choice, exactly the non-concretised parameters in order with defaults, no unbound names, name() = ident<names of arguments>, Subst(decl, args) denotes decl_concrete().",
+        note="Trusted: as C01; the family of definitions is hand-written.",
+        design_ref="DESIGN.md section 5 (C07)"),
 }
 
 NOT_YET = "check not built yet (work in progress, see DESIGN.md appendix B)"
